@@ -108,6 +108,22 @@ public:
   const T &operator*() const { if (!p_) throw NullDeref(); return *p_; }
 };
 
+// smart-pointer-like wrapper with D levels of operator* / operator-> (what `deref_count` describes)
+template <class P, int D> struct Wrap {
+  Wrap<P, D - 1> inner;
+  Wrap() {}
+  explicit Wrap(const P *p) : inner(p) {}
+  const Wrap<P, D - 1> &operator*() const { return inner; }
+  const Wrap<P, D - 1> *operator->() const { return &inner; }
+};
+template <class P> struct Wrap<P, 1> {
+  const P *p;
+  Wrap() : p(nullptr) {}
+  explicit Wrap(const P *q) : p(q) {}
+  const P &operator*() const { return *p; }
+  const P *operator->() const { return p; }
+};
+
 // ------------------------------------------------------------------ generic model object
 // Self is the concrete experiment class; ElemPtr says whether nested object collections hold pointers (ATLAS) or values (CMS).
 template <class Self, bool ElemPtr> class ObjT {
